@@ -3,7 +3,9 @@
 (b) the property on the real code: for all 14 splits x AT1 / AT2, isotropic and anisotropic materials, 2D and 3D, generic and
     degenerate strain states (zero, hydrostatic, uniaxial, two equal principal values, pure shear, near-degenerate), mixed
     within one element: finite parts, sigma+ + sigma- = C eps, psi+ + psi- = 1/2 eps.C eps, projectors vs an independent
-    eigen-decomposition; along load / unload histories of a simulation with the three irreversibility solvers: history energy
+    eigen-decomposition; whole strain fields of any size (1 ... 65537 elements, 1 - 4 points per element, generic states): every
+    point against numpy.linalg.eigh (Miehe, Zhang, He) or against the same points evaluated in small batches in another order;
+    along load / unload histories of a simulation with the three irreversibility solvers: history energy
     and damage never decrease between saved steps, zero loading keeps zero damage."""
 
 from __future__ import annotations
@@ -95,6 +97,156 @@ def make_material(rng, dim, isot):
                        lambda: E_.TransverselyIsotropic(dim, 14.0, 5.0, 3.0, 0.25, 0.3, axis_l=a1, axis_t=a2, planeStress=True)])()
 
 
+def kelvin_v(T):
+    """symmetric tensors (..., d, d) -> Kelvin-Mandel vectors"""
+    s = np.sqrt(2)
+    if T.shape[-1] == 2:
+        return np.stack([T[..., 0, 0], T[..., 1, 1], s * T[..., 0, 1]], axis=-1)
+    return np.stack([T[..., 0, 0], T[..., 1, 1], T[..., 2, 2], s * T[..., 1, 2], s * T[..., 0, 2], s * T[..., 0, 1]], axis=-1)
+
+
+def unkelvin_v(v):
+    s = np.sqrt(2)
+    d = 2 if v.shape[-1] == 3 else 3
+    T = np.zeros(v.shape[:-1] + (d, d))
+    for i in range(d):
+        T[..., i, i] = v[..., i]
+    if d == 2:
+        T[..., 0, 1] = T[..., 1, 0] = v[..., 2] / s
+    else:
+        T[..., 1, 2] = T[..., 2, 1] = v[..., 3] / s
+        T[..., 0, 2] = T[..., 2, 0] = v[..., 4] / s
+        T[..., 0, 1] = T[..., 1, 0] = v[..., 5] / s
+    return T
+
+
+def positive_part_v(vec):
+    """(positive part as Kelvin-Mandel vectors, smallest relative gap between principal values) with numpy.linalg.eigh, point by point"""
+    w, Q = np.linalg.eigh(unkelvin_v(vec))
+    pos = kelvin_v((Q * np.maximum(w, 0)[..., None, :]) @ np.swapaxes(Q, -1, -2))
+    gap = np.diff(w, axis=-1).min(axis=-1) / (1e-300 + np.abs(w).max(axis=-1))
+    return pos, gap
+
+
+def generic_field(nrng, dim, Ne, nPg, scale):
+    """strain field (Ne, nPg, 3 or 6): well separated principal values of mixed signs, an independent random principal frame at
+    every integration point"""
+    a = nrng.uniform(-1.5, 0.5, size=(Ne, nPg, 1))
+    w = a + np.concatenate([np.zeros((Ne, nPg, 1)), np.cumsum(nrng.uniform(0.2, 1.0, size=(Ne, nPg, dim - 1)), axis=-1)], axis=-1)
+    Q, _ = np.linalg.qr(nrng.normal(size=(Ne, nPg, dim, dim)))
+    return kelvin_v((Q * (scale * w)[..., None, :]) @ np.swapaxes(Q, -1, -2))
+
+
+def large_fields(res, rng, splits, thorough):
+    """The splits are functions of the strain at ONE integration point: on a field of any size (one element ... several ten
+    thousand elements, one or several points per element) every point carries the split of its own strain.
+    Miehe / Zhang / He: sigma+ and psi+ of every point against numpy.linalg.eigh; all parts add up to the undamaged stress and
+    energy at every point; the other splits: the field evaluated at once against the same points evaluated in another order
+    and in small batches."""
+    ref_splits = ("Miehe", "Zhang", "He")
+    others = [s for s in splits if s not in ref_splits and s != "Bourdin"]
+    for dim in (2, 3):
+        big = rng.choice([30011, 50021, 65537])
+        fields = [(rng.choice([1, 2, 7]), 1), (rng.choice([1021, 2053]), 4), (big, 1)]
+        if thorough:
+            fields += [(b, 1) for b in (30011, 50021, 65537) if b != big] + [(16411, 3)]
+        jobs = [(s, f) for s in ref_splits for f in fields]
+        big2 = rng.choice([25013, 30011])
+        jobs += [(s, (big2, 1)) for s in (others if thorough else rng.sample(others, 3 if dim == 3 else 6))]
+        for split, (Ne, nPg) in jobs:
+            mat = make_material(rng, dim, split in ISOT_ONLY or bool(rng.getrandbits(1)))
+            fseed = rng.randint(0, 2 ** 31 - 1)
+            scale = rng.choice([1e-5, 1e-3, 5e-2])
+            ident = dict(scenario="whole strain field", split=split, dim=dim, material=type(mat).__name__, Ne=Ne, nPg=nPg, field_seed=fseed, strain_scale=scale,
+                         field="generic_field(numpy.random.default_rng(field_seed), dim, Ne, nPg, strain_scale)")
+            if isinstance(mat, E_.Isotropic):
+                ident.update(E=mat.E, v=mat.v, planeStress=bool(mat.planeStress))
+            eps = generic_field(np.random.default_rng(fseed), dim, Ne, nPg, scale)
+            FE = lambda a: FeArray.asfearray(np.array(a, dtype=float))  # noqa: E731
+            res.count(f"field:{split}")
+            res.case(("field", split, dim, Ne, nPg, type(mat).__name__))
+            try:
+                pfm = Models.PhaseField(mat, split, "AT2", 0.5, 0.1)
+                sP, sM = (np.asarray(a, dtype=float) for a in pfm.Calc_Sigma_e_pg(FE(eps)))
+                if split in ref_splits:
+                    pP, pM = (np.asarray(a, dtype=float) for a in pfm.Calc_psi_e_pg(FE(eps)))
+                else:
+                    # the same points in another order, a few hundred elements at a time
+                    perm = np.random.default_rng(fseed + 1).permutation(Ne)
+                    step = 1500
+                    parts = [pfm.Calc_Sigma_e_pg(FE(eps[perm[i:i + step]])) for i in range(0, Ne, step)]
+                    rP, rM = np.empty_like(sP), np.empty_like(sM)
+                    rP[perm] = np.concatenate([np.asarray(a, dtype=float) for a, _ in parts])
+                    rM[perm] = np.concatenate([np.asarray(b, dtype=float) for _, b in parts])
+            except Exception as ex:  # noqa: BLE001
+                res.fail(f"field raises split={split} dim={dim}", f"{type(ex).__name__}: {str(ex)[:150]} on a strain field of {Ne} elements x {nPg} points", ident)
+                continue
+            C = np.asarray(mat.C, dtype=float)
+            sig = eps @ C.T
+            psi = 0.5 * np.sum(sig * eps, axis=-1)
+            ssc, psc = np.abs(sig).max(), np.abs(psi).max()
+
+            def first_bad(err_e, what):
+                """err_e: one relative error per element"""
+                bad = np.where(~(err_e <= 1e-7))[0]
+                if bad.size == 0:
+                    return None
+                e = int(bad[0])
+                return f"{what}: {bad.size} of {Ne} elements are wrong, e.g. elements {bad[:4].tolist()} (relative error {err_e[e]:.2e})", dict(ident, element=e, strain=eps[e].tolist())
+
+            if sP.shape != eps.shape or sM.shape != eps.shape:
+                res.fail(f"field shape split={split} dim={dim}", f"sigma+ has shape {sP.shape} for a strain field of shape {eps.shape}", ident)
+                continue
+            # the tensor whose spectral decomposition the split uses; in 3D the closed-form decomposition near repeated principal
+            # values is a known finding (reported by (b)): elements with such a point are not compared here
+            if split == "Amor":
+                pre = None
+            elif split == "He":
+                lamC, QC = np.linalg.eigh(C)
+                pre = rootC = (QC * np.sqrt(lamC)) @ QC.T
+            elif split in ("Stress", "Zhang") or split.startswith("AnisotStress"):
+                pre = C
+            else:
+                pre = np.eye(C.shape[0])
+            well = np.ones(Ne, dtype=bool)
+            if pre is not None:
+                tpos, gap = positive_part_v(eps @ pre.T)
+                if dim == 3:
+                    well = (gap >= 1e-3).all(axis=1)
+                    if well.sum() < 0.9 * Ne:
+                        res.notes.append(f"field {split} dim={dim} Ne={Ne}: only {int(well.sum())} elements with separated principal values")
+            out = first_bad(np.where(well, np.where(np.isfinite(sP + sM), np.abs(sP + sM - sig), np.inf).max(axis=(1, 2)) / ssc, 0.0), "sigma+ + sigma- != C eps")
+            if out:
+                res.fail(f"field: stress not partitioned split={split} dim={dim}", f"split {split}, field of {Ne} elements x {nPg} points: " + out[0], out[1])
+                continue
+            if split not in ref_splits:
+                err = np.maximum(np.abs(sP - rP), np.abs(sM - rM)).max(axis=(1, 2)) / ssc
+                out = first_bad(np.where(well, err, 0.0), "sigma+ / sigma- of the field evaluated at once differ from the same points evaluated in small batches")
+                if out:
+                    res.fail(f"field: split depends on the field size split={split} dim={dim}", f"split {split}, field of {Ne} elements x {nPg} points: " + out[0], out[1])
+                continue
+            out = first_bad(np.where(well, np.where(np.isfinite(pP + pM), np.abs(pP + pM - psi), np.inf).max(axis=1) / psc, 0.0), "psi+ + psi- != 1/2 eps.C eps")
+            if out:
+                res.fail(f"field: energy not partitioned split={split} dim={dim}", f"split {split}, field of {Ne} elements x {nPg} points: " + out[0], out[1])
+                continue
+            # independent positive parts, point by point (tpos: positive part of the strain / the stress / C^1/2 eps)
+            if split == "Miehe":
+                lamb, mu = float(mat.get_lambda()), float(mat.get_mu())
+                tr = eps[..., :dim].sum(axis=-1)
+                one = np.array([1.0] * dim + [0.0] * (eps.shape[-1] - dim))
+                refS = lamb * np.maximum(tr, 0)[..., None] * one + 2 * mu * tpos
+                refP = 0.5 * lamb * np.maximum(tr, 0) ** 2 + mu * np.sum(tpos * tpos, axis=-1)
+            elif split == "Zhang":
+                refS = tpos
+                refP = 0.5 * np.sum(refS * eps, axis=-1)
+            else:
+                refS, refP = tpos @ rootC.T, 0.5 * np.sum(tpos * tpos, axis=-1)
+            err = np.maximum(np.abs(sP - refS).max(axis=(1, 2)) / ssc, np.abs(pP - refP).max(axis=1) / psc)
+            out = first_bad(np.where(well, err, 0.0), "sigma+ / psi+ differ from the positive part computed with numpy.linalg.eigh")
+            if out:
+                res.fail(f"field: positive part vs eigen-decomposition split={split} dim={dim}", f"split {split}, field of {Ne} elements x {nPg} points: " + out[0], out[1])
+
+
 def main():
     args = parse_args()
     rng = rng_for(args)
@@ -179,15 +331,15 @@ def main():
                                     res.fail(KNOWN3D if deg_elem[e] else f"non-finite split={split} dim={dim} state={names[st]}", f"split {split}: positive / negative parts contain NaN or inf for the strain state '{nm}'", idn)
                                     continue
                                 scaleC = np.abs(C).max()
-                                if np.abs(cPe + cMe - C).max() > 1e-8 * scaleC:
+                                if not (np.abs(cPe + cMe - C).max() <= 1e-8 * scaleC):
                                     res.fail(KNOWN3D if deg_elem[e] else f"cP + cM != C split={split} dim={dim} state={names[st]}", f"split {split}: max |cP + cM - C| / |C| = {np.abs(cPe + cMe - C).max() / scaleC:.2e} for '{nm}'", idn)
                                     continue
                                 sig = C @ eps
                                 ssc = 1e-30 + np.abs(sig).max()
-                                if np.abs(sP[e, p] + sM[e, p] - sig).max() > 1e-8 * max(ssc, 1e-12 * scaleC):
+                                if not (np.abs(sP[e, p] + sM[e, p] - sig).max() <= 1e-8 * max(ssc, 1e-12 * scaleC)):
                                     res.fail(KNOWN3D if deg_elem[e] else f"stress not partitioned split={split} dim={dim} state={names[st]}", f"split {split}: |sigma+ + sigma- - C eps| = {np.abs(sP[e, p] + sM[e, p] - sig).max():.2e} for '{nm}'", idn)
                                 psi = 0.5 * eps @ sig
-                                if abs(pP[e, p] + pM[e, p] - psi) > 1e-8 * max(abs(psi), 1e-24 * scaleC):
+                                if not (abs(pP[e, p] + pM[e, p] - psi) <= 1e-8 * max(abs(psi), 1e-24 * scaleC)):
                                     res.fail(KNOWN3D if deg_elem[e] else f"energy not partitioned split={split} dim={dim} state={names[st]}", f"split {split}: psi+ + psi- = {pP[e, p] + pM[e, p]} but 1/2 eps.C eps = {psi} for '{nm}'", idn)
                                 if split == "He" and not deg_elem[e]:
                                     # independent reference: eps~ = C^1/2 eps, positive principal part of eps~, sigma+ = C^1/2 eps~+, psi+ = 1/2 |eps~+|^2
@@ -196,8 +348,8 @@ def main():
                                     wt, Vt = np.linalg.eigh(unkelvin(rootC @ eps))
                                     ep_ = kelvin((Vt * np.maximum(wt, 0)) @ Vt.T)
                                     refS, refP = rootC @ ep_, 0.5 * ep_ @ ep_
-                                    if np.abs(sP[e, p] - refS).max() > 1e-7 * max(ssc, 1e-12 * scaleC) or abs(pP[e, p] - refP) > 1e-7 * max(abs(psi), 1e-24 * scaleC) \
-                                            or np.abs(cPe @ eps - refS).max() > 1e-7 * max(ssc, 1e-12 * scaleC):
+                                    if not (np.abs(sP[e, p] - refS).max() <= 1e-7 * max(ssc, 1e-12 * scaleC)) or not (abs(pP[e, p] - refP) <= 1e-7 * max(abs(psi), 1e-24 * scaleC)) \
+                                            or not (np.abs(cPe @ eps - refS).max() <= 1e-7 * max(ssc, 1e-12 * scaleC)):
                                         res.fail(f"He positive part split={split} dim={dim} state={names[st]}",
                                                  f"split He: sigma+ / psi+ / cP eps differ from C^1/2 <C^1/2 eps>+ computed with numpy.linalg.eigh (|d sigma+| = {np.abs(sP[e, p] - refS).max():.2e}, d psi+ = {abs(pP[e, p] - refP):.2e}) for '{nm}'", idn)
         # projectors vs an independent eigen-decomposition (Miehe machinery on the strain itself)
@@ -218,7 +370,7 @@ def main():
                     res.case(("eigen", dim, names[st], e, p))
                     idn = dict(dim=dim, state=names[st], strain=Eps[e, p].tolist())
                     got = np.sort(vals_[e, p])
-                    if not np.all(np.isfinite(got)) or np.abs(got - w).max() > 1e-8 * (1e-300 + np.abs(w).max()) + 1e-18:
+                    if not np.all(np.isfinite(got)) or not (np.abs(got - w).max() <= 1e-8 * (1e-300 + np.abs(w).max()) + 1e-18):
                         res.fail(KNOWN3D if deg3[e] else f"eigenvalues dim={dim} state={names[st]}", f"eigenvalues {got.tolist()} differ from numpy.linalg.eigh {w.tolist()}", idn)
                         continue
                     # reconstruct: sum_i v_i M_i = T and sum_i M_i = I, M_i M_j = delta_ij M_i
@@ -227,7 +379,7 @@ def main():
                         res.fail(KNOWN3D if deg3[e] else f"eigen projectors non-finite dim={dim} state={names[st]}", "an eigen projector contains NaN or inf", idn)
                         continue
                     recon = sum(v * Mi for v, Mi in zip(vals_[e, p], Ms))
-                    if np.abs(recon - T).max() > 1e-9 * (1e-300 + np.abs(T).max()) + 1e-18 or np.abs(sum(Ms) - np.eye(dim)).max() > 1e-9:
+                    if not (np.abs(recon - T).max() <= 1e-9 * (1e-300 + np.abs(T).max()) + 1e-18) or not (np.abs(sum(Ms) - np.eye(dim)).max() <= 1e-9):
                         res.fail(KNOWN3D if deg3[e] else f"eigen projectors dim={dim} state={names[st]}", "the eigen projectors do not resolve the identity / do not rebuild the tensor", idn)
             # positive part of the strain through the spectral projector (Miehe, lambda = 0 would isolate it: use the code's own decomposition)
             try:
@@ -240,13 +392,13 @@ def main():
                         Tp = (V * np.maximum(w, 0)) @ V.T
                         got = projP[e, p] @ Eps[e, p]
                         res.case(("projP", dim, names[st], e, p))
-                        if not np.all(np.isfinite(got)) or np.abs(got - kelvin(Tp)).max() > 1e-7 * (1e-300 + np.abs(T).max()) + 1e-18:
+                        if not np.all(np.isfinite(got)) or not (np.abs(got - kelvin(Tp)).max() <= 1e-7 * (1e-300 + np.abs(T).max()) + 1e-18):
                             res.fail(KNOWN3D if deg3[e] else f"positive part dim={dim} state={names[st]}", f"projP · eps = {got.tolist()} but the positive part of the strain is {kelvin(Tp).tolist()}", dict(dim=dim, state=names[st], strain=Eps[e, p].tolist()))
                             continue
                         # the whole projector, not only its action on eps: projP is the derivative of the positive part with respect to
                         # the strain (central differences of the eigh-based positive part), away from repeated or vanishing principal values
                         gaps_ = np.diff(np.sort(w))
-                        if a == b and np.abs(w).min() > 1e-3 * np.abs(w).max() and gaps_.min() > 1e-2 * np.abs(w).max():
+                        if a == b and not (np.abs(w).min() <= 1e-3 * np.abs(w).max()) and not (gaps_.min() <= 1e-2 * np.abs(w).max()):
                             hfd = 1e-6 * np.abs(w).max()
                             Pfd = np.zeros((len(Eps[e, p]), len(Eps[e, p])))
                             for jj in range(len(Eps[e, p])):
@@ -259,11 +411,14 @@ def main():
                                 Pfd[:, jj] = (cols[0] - cols[1]) / (2 * hfd)
                             res.case(("projP-derivative", dim, names[st], e, p))
                             errP = np.abs(projP[e, p] - Pfd).max()
-                            if errP > 1e-5:
+                            if not (errP <= 1e-5):
                                 res.fail(f"positive projector is not the derivative of the positive part dim={dim} state={names[st]}",
                                          f"max |projP - d eps+/d eps| = {errP:.2e} (central differences of the eigen-decomposition of numpy)", dict(dim=dim, state=names[st], strain=Eps[e, p].tolist()))
             except Exception as ex:  # noqa: BLE001
                 res.fail(f"spectral decomposition raises dim={dim}", f"{type(ex).__name__}: {str(ex)[:150]}", dict(dim=dim))
+
+    # ---------------- (c) whole strain fields: every integration point of a field, whatever its number of elements ----------------
+    large_fields(res, rng, splits, thorough)
 
     # ---------------- histories ----------------
     for solver in ("History", "HistoryDamage", "BoundConstrain"):
@@ -295,15 +450,15 @@ def main():
                 if not np.all(np.isfinite(d)):
                     res.fail(f"damage non-finite solver={solver} split={split}", f"damage contains NaN / inf at step {k}", ident)
                     break
-                if all(l == 0.0 for l in loads[:k + 1]) and np.abs(d).max() > 1e-12:
+                if all(l == 0.0 for l in loads[:k + 1]) and not (np.abs(d).max() <= 1e-12):
                     res.fail(f"damage without loading solver={solver} split={split}", f"max damage {np.abs(d).max():.2e} after {k + 1} steps without loading", ident)
                     break
                 # the property states nodal irreversibility for the damage-based solvers only (History drives the damage
                 # through the monotone history energy; its discrete damage is not monotone node by node)
-                if solver != "History" and prevd is not None and (d - prevd).min() < -1e-9:
+                if solver != "History" and prevd is not None and not ((d - prevd).min() >= -1e-9):
                     res.fail(f"damage decreases solver={solver}", f"damage decreases by {-(d - prevd).min():.2e} between saved steps {k - 1} and {k} (split {split})", ident)
                     break
-                if solver == "History" and prevH is not None and (Hn - prevH).min() < -1e-9 * (1 + np.abs(prevH).max()):
+                if solver == "History" and prevH is not None and not ((Hn - prevH).min() >= -1e-9 * (1 + np.abs(prevH).max())):
                     res.fail("history energy decreases", f"the driving energy decreases by {-(Hn - prevH).min():.2e} between saved steps {k - 1} and {k} (split {split})", ident)
                     break
                 prevd, prevH = d, Hn
@@ -320,11 +475,12 @@ def main():
             except Exception:  # noqa: BLE001
                 res.disagree(kind, dict(model=ans[:80]))
                 continue
-            if model.shape != real.shape or np.abs(model - real).max() > 1e-15:
+            if model.shape != real.shape or not (np.abs(model - real).max() <= 1e-15):
                 res.disagree(kind, dict(model=model.tolist(), real=real.tolist()))
     res.search_note = "all splits partition stress and energy on the sampled states and the histories are monotone"
     res.write("14 splits x (AT2, AT1 in thorough) x isotropic / orthotropic / transversely isotropic materials x 2D / 3D x strain states in random principal frames: generic, zero, hydrostatic ±, uniaxial ±, pure shear, "
               "zero trace, two equal principal values (also axis-aligned), near-degenerate (1e-9), tiny (1e-12), and elements mixing two different states; eigenvalues / projectors vs numpy.linalg.eigh; "
+              "whole strain fields of 1 ... 65537 elements x 1 - 4 points with generic states, every point checked; "
               "load / unload / zero-load histories with the three irreversibility solvers; distinct = distinct (split, regularisation, dimension, material, state)")
 
 
